@@ -382,6 +382,21 @@ fn exec(w: &mut Worker, o: &Value) {
                     match r {
                         Ok(h) => {
                             let (p, _) = ptr_of(&h);
+                            // the converted value must hold the original bytes (a copy made from
+                            // storage that was already released shows up here)
+                            {
+                                let d: &[u8] = match &h {
+                                    H::B(b) => &b[..],
+                                    H::M(m) => &m[..],
+                                    H::V(v) => &v[..],
+                                };
+                                let mut e = LogEv::new("read", tnum());
+                                e.h = s.gid;
+                                e.id = 0;
+                                e.dok = d == &s.exp[..];
+                                e.note = "converted";
+                                push(e);
+                            }
                             // zero-copy exclusive ownership: same storage block, no copy
                             let excl = nonempty && blk_of(p) != 0 && blk_of(p) == blk_of(before);
                             s.h = Some(h);
